@@ -37,11 +37,11 @@ from fractions import Fraction
 
 import numpy as np
 
-from runner import Infra
+from runner import Infra, TieBroken
 
 ID = "C13"
 LEAN_MODULES = ["PyYetiVerif.Props.C13", "PyYetiVerif.Props.C13Text", "PyYetiVerif.Props.C13Dmig", "PyYetiVerif.Props.C13Grid",
-                "PyYetiVerif.Props.C13Cord", "PyYetiVerif.Props.C13DmigX", "PyYetiVerif.Audit.C13"]
+                "PyYetiVerif.Props.C13Cord", "PyYetiVerif.Props.C13DmigX", "PyYetiVerif.Props.C13Fmt", "PyYetiVerif.Audit.C13"]
 AUDIT_FILE = "PyYetiVerif/Audit/C13.lean"
 THEOREMS = [
     "PyYetiVerif.C13." + n
@@ -56,7 +56,9 @@ THEOREMS = [
         "vecwrite_length_rule vecwrite_mismatch_raises vecwrite_broadcast wtgrids_packaging wtgrids_mismatch_raises "
         "grid_roundtrip cord2_roundtrip uset_roundtrip "
         "rddmig_default_is_plain rddmig_options_same_cells rddmig_square_index rddmig_expanded_index "
-        "rddmig_expanded_spec rddmig_square_spec rddmig_options_on_lines"
+        "rddmig_expanded_spec rddmig_square_spec rddmig_options_on_lines "
+        "bulk_format_widths_ok dmig_lines_are_templates grid_card_is_template cord_card_is_template nasints_is_template "
+        "set_tokens_are_templates tabled1_is_template"
     ).split()
 ]
 TRUSTED = [
@@ -153,6 +155,19 @@ MANIFEST = {
 }
 
 NAMES_BAD = {"INF", "NAN", "INFINITY"}
+
+
+def translate(ctx):
+    """format strings / field widths / layout constants of the writers and the slicing constants of the card reader,
+    regenerated from pyyeti/nastran/bulk.py (Python ast, no execution) into Generated/BulkFormats.lean"""
+    from translate import c13_bulkformats as tr
+
+    try:
+        c = tr.run(ctx.repo, ctx.lean)
+    except tr.Unparsable as e:
+        raise TieBroken("bulk.py format strings: %s" % e)
+    ctx.extra["bulk_formats"] = {"constants": c["C"], "strings": c["S"], "templates": sorted(c["T"])}
+    return ["BulkFormats"]
 
 # ---------------------------------------------------------------------------------------
 # helpers
